@@ -206,9 +206,9 @@ func c17Run(cfgIdx int, hist []int) *mc.SeqOut {
 
 func init() {
 	mc.Register(&mc.Property{
-		ID:    "C17",
-		Level: "model_checking",
-		Rule: "every history up to depth 4 (thorough 5) over {create, update, delete on an Event key, a plain key and three look-alike keys (an 'events' segment deeper in the path, a sibling directory whose name begins with 'events'); compaction; the clock advancing by TTL-1s, 1s, TTL+1s} on memkv without native TTL (compaction-driven expiry), memkv with native TTL (timers on the virtual clock) and (thorough) tikv-mock; after every step every key is compared with the versioned-map model: non-Event keys must never change, an Event may read absent only if its newest change is at least TTL old and then no record of it may be left and it must be creatable again; the watcher must see the clients' writes only",
+		ID:     "C17",
+		Level:  "model_checking",
+		Rule:   "every history up to depth 4 (thorough 5) over {create, update, delete on an Event key, a plain key and three look-alike keys (an 'events' segment deeper in the path, a sibling directory whose name begins with 'events'); compaction; the clock advancing by TTL-1s, 1s, TTL+1s} on memkv without native TTL (compaction-driven expiry), memkv with native TTL (timers on the virtual clock) and (thorough) tikv-mock; after every step every key is compared with the versioned-map model: non-Event keys must never change, an Event may read absent only if its newest change is at least TTL old and then no record of it may be left and it must be creatable again; the watcher must see the clients' writes only",
 		Assume: []string{"TTL set to 10 s through the injected setter; virtual clock", "Event keys are the keys under <prefix>/events/ (the property's definition)"},
 		Exec:   func(j *mc.Job) *mc.JobResult { return mc.SeqExec(j, c17Run) },
 		Drive: func(c *mc.Ctx) {
